@@ -1,0 +1,27 @@
+//go:build verif
+
+package protocol
+
+// Exports for the external verification harness (C15: close / deadlines / life cycle).
+// Add-only; compiled only with -tags verif.
+
+const (
+	VerifC15ServerRespTimeoutNs        = int64(serverRespTimeout)
+	VerifC15SessionHeartbeatIntervalNs = int64(sessionHeartbeatInterval)
+	VerifC15SessionHeartbeatJitterMs   = int64(sessionHeartbeatJitterMs)
+	VerifC15PeriodicOutputIntervalNs   = int64(periodicOutputInterval)
+	VerifC15BackPressureDelayNs        = int64(backPressureDelay)
+	VerifC15MaxBackOffDurationNs       = int64(maxBackOffDuration)
+	VerifC15SegmentChanCapacity        = int64(segmentChanCapacity)
+	VerifC15SegmentTreeCapacity        = int64(segmentTreeCapacity)
+	VerifC15SessionChanCapacity        = int64(sessionChanCapacity)
+	VerifC15SessionCleanIntervalNs     = int64(sessionCleanInterval)
+	VerifC15UnderlayCleanIntervalNs    = int64(underlayCleanInterval)
+	VerifC15IdleSessionTimeoutNs       = int64(idleSessionTimeout)
+	VerifC15TxCountLimit               = int64(txCountLimit)
+	VerifC15MaxPDU                     = int64(maxPDU)
+)
+
+// VerifC15ReadOneSegmentTimeoutNs returns the (host-dependent, fixed per host) read timeout the
+// underlay event loops re-arm before every blocking read.
+func VerifC15ReadOneSegmentTimeoutNs() int64 { return int64(readOneSegmentTimeout) }
